@@ -22,7 +22,7 @@ func init() { registry["C18"] = runC18 }
 func runC18(c *sim.Ctx, t *testing.T) {
 	sim.Install(c)
 	defer sim.Uninstall()
-	cfg := genCfg{native: true, stubs: true, failOps: true, nullRet: true, permanents: true, guards: true, guardEmits: true, loops: true, maxNodes: 5, inPlace: true, errorNode: true}
+	cfg := genCfg{native: true, stubs: true, failOps: true, nullRet: true, permanents: true, guards: true, guardEmits: true, loops: true, maxNodes: 5, inPlace: true, inPlaceAll: true, errorNode: true}
 	// Fault (a sixth of the runs; programs with native code only, which ignores the context, so
 	// nothing else changes): the host's context is already over while the machines are stepped.
 	deadCtx := c.Chance(1, 6, "deadcontext")
